@@ -36,15 +36,18 @@ type kase struct {
 	Script   string `json:"script"`
 	Modelled bool   `json:"modelled"`
 	// direct expand.ReadFields observations on the logical line: for n = -1, 0, 1, 2, 3, k
-	Line     []int    `json:"line"`
-	RFN      []int    `json:"rf_n"`
-	RF       []any    `json:"rf"` // per n: [][]int or "P"
-	Interp   string   `json:"interp"`
-	Vals     [][]int  `json:"vals"` // parsed interp output: status, then values (nil if unparsable)
-	Bash     string   `json:"bash"`
-	Fails    []string `json:"fails"`
-	Class    string   `json:"class"`
-	NoOracle string   `json:"no_oracle"` // why bash is not consulted for this case ("" = it is)
+	Line      []int    `json:"line"`
+	RFN       []int    `json:"rf_n"`
+	RF        []any    `json:"rf"` // per n: [][]int or "P"
+	Interp    string   `json:"interp"`
+	Vals      [][]int  `json:"vals"` // parsed interp output: status, then values (nil if unparsable)
+	Bash      string   `json:"bash"`
+	Fails     []string `json:"fails"`
+	Class     string   `json:"class"`
+	Seq       int      `json:"seq"` // seq stream: number of the sequence this step belongs to (else -1)
+	SeqPos    int      `json:"seq_pos"`
+	SeqScript string   `json:"seq_script"` // the whole sequence as one script (one Runner, one expand.Config)
+	NoOracle  string   `json:"no_oracle"`  // why bash is not consulted for this case ("" = it is)
 
 	ifs   string
 	input string
@@ -169,7 +172,7 @@ func (k *kase) finish(dir string) {
 
 const prelude = `p() { printf '<%s>' "$@"; }; q() { printf '[%s]' "$#"; }`
 
-func (k *kase) runReadFields() {
+func (k *kase) runReadFields(shared *expand.Config) {
 	line, _ := logicalLine(k.input, k.Raw)
 	if k.Modelled {
 		k.Line = hxsplit.Runes(line)
@@ -181,7 +184,11 @@ func (k *kase) runReadFields() {
 	k.RFN = []int{-1, []int{0, -7, 4}[k.ID%3], []int{1, 2, 3, 5, 1, 2}[k.ID%6]}
 	for _, n := range k.RFN {
 		var got []string
-		cfg := &expand.Config{Env: env}
+		cfg := shared // a sequence reuses one Config with a changing environment, like the interpreter does
+		if cfg == nil {
+			cfg = &expand.Config{}
+		}
+		cfg.Env = env
 		if p, _ := hx.Try(func() { got = expand.ReadFields(cfg, line, n, k.Raw) }); p {
 			k.RF = append(k.RF, "P")
 			k.Fails = append(k.Fails, "readfields_panics")
@@ -344,6 +351,25 @@ var pinned = []struct {
 	{true, " \t\n", "\\  \\ \n", false, false, 1},
 }
 
+// genRest draws the input and the flags of a case whose IFS is already chosen
+func genRest(r *rand.Rand, k *kase, wild bool) {
+	k.input = genInput(r, k.ifs)
+	if wild {
+		pos := r.IntN(len(k.input) + 1)
+		k.input = k.input[:pos] + hx.Pick(r, []string{"\xff", "\xc3", "\xe2\x82", "\x80"}) + k.input[pos:]
+	}
+	k.Raw = r.IntN(3) == 0
+	k.Array = r.IntN(5) == 0
+	k.K = r.IntN(5)
+	if k.Array {
+		k.K = 1
+	}
+	// bash leaves a \001 in the value when the input ends inside an escape
+	if _, dangling := logicalLine(k.input, k.Raw); dangling {
+		k.input += "\n"
+	}
+}
+
 func main() {
 	o := hx.ParseArgs()
 	defer hx.Flush()
@@ -361,31 +387,44 @@ func main() {
 		}
 		r := hx.Rand(o.Seed, stream)
 		for i := 0; i < o.N; i++ {
-			k := &kase{ID: i, Stream: o.Mode}
+			k := &kase{ID: i, Stream: o.Mode, Seq: -1}
 			k.IFSSet, k.ifs = genIFS(r)
 			if o.Mode == "wild" && r.IntN(4) == 0 {
-				k.IFSSet, k.ifs = true, hx.Pick(r, []string{"\xff", ":\xc3", "�"})
+				k.IFSSet, k.ifs = true, hx.Pick(r, []string{"\xff", ":\xc3", "\uFFFD"})
 			}
-			k.input = genInput(r, k.ifs)
-			if o.Mode == "wild" {
-				pos := r.IntN(len(k.input) + 1)
-				k.input = k.input[:pos] + hx.Pick(r, []string{"\xff", "\xc3", "\xe2\x82", "\x80"}) + k.input[pos:]
-			}
-			k.Raw = r.IntN(3) == 0
-			k.Array = r.IntN(5) == 0
-			k.K = r.IntN(5)
-			if k.Array {
-				k.K = 1
-			}
-			// bash leaves a \001 in the value when the input ends inside an escape
-			if _, dangling := logicalLine(k.input, k.Raw); dangling {
-				k.input += "\n"
-			}
+			genRest(r, k, o.Mode == "wild")
 			cases = append(cases, k)
+		}
+	case "seq":
+		// sequences of reads in one shell / on one expand.Config while IFS changes in between:
+		// a custom value, then unset / empty / another value, then anything
+		r := hx.Rand(o.Seed, 2302)
+		for i := 0; i < o.N; i++ {
+			n := 2 + r.IntN(2)
+			for j := 0; j < n; j++ {
+				k := &kase{ID: len(cases), Stream: "seq", Seq: i, SeqPos: j}
+				switch j {
+				case 0:
+					k.IFSSet, k.ifs = true, hx.Pick(r, []string{":", ",", ": ", "x", "-", ":,", "é", "/"})
+				case 1:
+					switch r.IntN(4) {
+					case 0, 1:
+						k.IFSSet, k.ifs = false, " \t\n"
+					case 2:
+						k.IFSSet, k.ifs = true, ""
+					default:
+						k.IFSSet, k.ifs = true, hx.Pick(r, []string{",", " ", "b", " \t\n"})
+					}
+				default:
+					k.IFSSet, k.ifs = genIFS(r)
+				}
+				genRest(r, k, false)
+				cases = append(cases, k)
+			}
 		}
 	case "pinned":
 		for i, p := range pinned {
-			k := &kase{ID: i, Stream: "pinned", IFSSet: p.ifsSet, ifs: p.ifs, input: p.input, Raw: p.raw, Array: p.array, K: p.k}
+			k := &kase{ID: i, Stream: "pinned", Seq: -1, IFSSet: p.ifsSet, ifs: p.ifs, input: p.input, Raw: p.raw, Array: p.array, K: p.k}
 			if !p.ifsSet {
 				k.ifs = " \t\n"
 			}
@@ -394,16 +433,62 @@ func main() {
 	default:
 		panic("unknown mode")
 	}
-	bodies := make([]string, len(cases))
-	for i, k := range cases {
+	// units: single cases, or the steps of one sequence (run by one bash, one Runner, one expand.Config)
+	var units [][]*kase
+	for _, k := range cases {
 		k.finish(dir)
-		bodies[i] = k.Script
+		if k.Seq >= 0 && len(units) > 0 && units[len(units)-1][0].Seq == k.Seq {
+			units[len(units)-1] = append(units[len(units)-1], k)
+		} else {
+			units = append(units, []*kase{k})
+		}
+	}
+	bodies := make([]string, len(units))
+	for i, u := range units {
+		var parts []string
+		for _, k := range u {
+			parts = append(parts, k.Script)
+		}
+		bodies[i] = strings.Join(parts, "; printf '|'; ")
+		if len(u) > 1 {
+			for _, k := range u {
+				k.SeqScript = bodies[i]
+			}
+		}
 	}
 	bash := hxsplit.Bash(dir, prelude, bodies)
+	split := func(out string, n int) []string {
+		l := strings.Split(out, "|")
+		if len(l) != n {
+			l = make([]string, n)
+			for i := range l {
+				l[i] = "UNSPLITTABLE:" + out
+			}
+		}
+		return l
+	}
+	bashCase := make([]string, 0, len(cases))
+	interpOut := map[*kase]string{}
+	sharedCfg := map[*kase]*expand.Config{}
+	for i, u := range units {
+		bashCase = append(bashCase, split(bash[i], len(u))...)
+		if len(u) > 1 {
+			is := split(hxsplit.RunInterp(dir, prelude+"\n"+bodies[i], 5*time.Second), len(u))
+			cfg := &expand.Config{}
+			for j, k := range u {
+				interpOut[k] = is[j]
+				sharedCfg[k] = cfg
+			}
+		}
+	}
 	for i, k := range cases {
-		k.Bash = bash[i]
-		k.runReadFields()
-		k.Interp = hxsplit.RunInterp(dir, prelude+"\n"+k.Script, 5*time.Second)
+		k.Bash = bashCase[i]
+		k.runReadFields(sharedCfg[k])
+		if out, ok := interpOut[k]; ok {
+			k.Interp = out
+		} else {
+			k.Interp = hxsplit.RunInterp(dir, prelude+"\n"+k.Script, 5*time.Second)
+		}
 		if k.Modelled {
 			k.Vals = parseVals(k.Interp)
 		}
